@@ -74,6 +74,9 @@ var harnesses = map[string]harness{
 	"2x1": {"2x1", 2, 1}, "2x2": {"2x2", 2, 2}, "3x1": {"3x1", 3, 1}, "2x3": {"2x3", 2, 3}, "3x2": {"3x2", 3, 2}, "4x1": {"4x1", 4, 1}, "4x2": {"4x2", 4, 2}, "3x3": {"3x3", 3, 3},
 }
 
+// abortRun is mc.Run.Abort of the current run (set in main).
+var abortRun func(format string, a ...any)
+
 type execResult struct {
 	outcome  string // "" = all invariants hold
 	detail   string
@@ -101,7 +104,20 @@ func execute(h harness, ch sched.Chooser, procs int) execResult {
 			}
 		}
 	}
-	s := sched.Run(ch, bodies...)
+	// A controlled goroutine that blocks on something the scheduler does not intercept (a channel served by a goroutine the
+	// package started itself, a timer) would block the exploration for ever: give every execution a generous wall-clock
+	// limit and stop exploring schedules if it is exceeded (the free-running supplements have already run).
+	done := make(chan *sched.Sched, 1)
+	go func() { done <- sched.Run(ch, bodies...) }()
+	var s *sched.Sched
+	select {
+	case s = <-done:
+	case <-time.After(20 * time.Second):
+		if abortRun != nil {
+			abortRun("a controlled goroutine of harness %s did not reach its next scheduling point within 20s: package uu synchronises through something the scheduler does not intercept (seams bound: %s); schedule exploration cannot bind to this tree", h.name, uu.VerifBinding)
+		}
+		panic("blocked outside the scheduler")
+	}
 	res := execResult{schedule: s.Switches, points: s.Points}
 	concurrent, lost := "", ""
 	for _, src := range vrand.Sources {
@@ -276,6 +292,7 @@ func probeSeed(a seedArg) (string, string) {
 func main() {
 	mc.Main("C19", "stateless model checking of uu.RandomID under a controlled cooperative scheduler: every interleaving of T goroutines x K calls with at most B preemptions (scheduling points: mutex lock/unlock, thread start/end, and a yield inside the scripted generator between its read and its write); bit layout over single-bit and complement draws; "+
 		"non-trivial = schedule with at least one preemption", func(r *mc.Run) {
+		abortRun = r.Abort
 		r.Workers = 1 // the code under test has process-wide state (one generator, one mutex): executions run one at a time
 		pS := mc.NewProbe(r, "schedule", nil, probeSchedule)
 		pB := mc.NewProbe(r, "bits", nil, probeBits)
@@ -345,6 +362,43 @@ func main() {
 				r.Serial(func(w *mc.W) { w.Point(); w.Outcome("race supplement") })
 			})
 		}
+		// ... and so do the bit phases (cheap, complete grids).
+		// bits
+		var draws []uint64
+		draws = append(draws, 0, 1<<63-1)
+		for i := 0; i < 63; i++ {
+			draws = append(draws, 1<<uint(i), (1<<63-1)&^(1<<uint(i)))
+		}
+		r.Phase(fmt.Sprintf("bit layout: all %d^2 pairs of draws from {0, 2^63-1, e_i, not e_i}", len(draws)), "complete", func() {
+			r.Serial(func(w *mc.W) {
+				for _, a := range draws {
+					for _, b := range draws {
+						w.Point()
+						w.NonTrivial()
+						pB.Do(w, bitsArg{a, b})
+					}
+				}
+				w.Point()
+				w.NonTrivial()
+				pK.Do(w, stuckArg{draws})
+				w.Outcome("bit layout")
+			})
+		})
+		r.Sample("bits", bitsArg{1 << 14, 1})
+		r.Sample("bits_both_values", stuckArg{[]uint64{0, 1<<63 - 1}})
+		seeds, n := 16, 2048
+		if !r.Quick() {
+			seeds, n = 64, 4096
+		}
+		r.Phase(fmt.Sprintf("supplement (not deciding): real math/rand generator, seeds 0..%d x %d sequential draws: version/variant, no duplicate, every random bit takes both values", seeds-1, n), "stated seeds", func() {
+			r.Serial(func(w *mc.W) {
+				for s := 0; s < seeds; s++ {
+					w.Point()
+					pR.Do(w, seedArg{int64(s), n})
+				}
+				w.Outcome("real generator")
+			})
+		})
 		sched_stats := []map[string]any{}
 		// Iterative context bounding across the whole plan: every harness at bound 0, then every harness at bound 1, at bound
 		// 2, ..., and only then the unbounded explorations - so that a tree whose executions are long (many scheduling
@@ -418,42 +472,6 @@ func main() {
 		r.Extra["schedule_exploration"] = sched_stats
 		r.Sample("schedule", schedArg{Harness: "2x2", Trail: []int{1, 0, 1}})
 
-		// bits
-		var draws []uint64
-		draws = append(draws, 0, 1<<63-1)
-		for i := 0; i < 63; i++ {
-			draws = append(draws, 1<<uint(i), (1<<63-1)&^(1<<uint(i)))
-		}
-		r.Phase(fmt.Sprintf("bit layout: all %d^2 pairs of draws from {0, 2^63-1, e_i, not e_i}", len(draws)), "complete", func() {
-			r.Serial(func(w *mc.W) {
-				for _, a := range draws {
-					for _, b := range draws {
-						w.Point()
-						w.NonTrivial()
-						pB.Do(w, bitsArg{a, b})
-					}
-				}
-				w.Point()
-				w.NonTrivial()
-				pK.Do(w, stuckArg{draws})
-				w.Outcome("bit layout")
-			})
-		})
-		r.Sample("bits", bitsArg{1 << 14, 1})
-		r.Sample("bits_both_values", stuckArg{[]uint64{0, 1<<63 - 1}})
-		seeds, n := 16, 2048
-		if !r.Quick() {
-			seeds, n = 64, 4096
-		}
-		r.Phase(fmt.Sprintf("supplement (not deciding): real math/rand generator, seeds 0..%d x %d sequential draws: version/variant, no duplicate, every random bit takes both values", seeds-1, n), "stated seeds", func() {
-			r.Serial(func(w *mc.W) {
-				for s := 0; s < seeds; s++ {
-					w.Point()
-					pR.Do(w, seedArg{int64(s), n})
-				}
-				w.Outcome("real generator")
-			})
-		})
 	})
 }
 
